@@ -1,43 +1,51 @@
-(* Proofs/C14Pen.v -- the penalty of a term (list) is a function of its current behaviour-determining settings *)
+(* Proofs/C14Pen.v -- the penalty of a compiled term (list) is a function of its current behaviour-determining settings *)
 From Coq Require Import List ZArith QArith String Bool.
 From PG Require Import Base.Ops Base.Vec Model.Penalties Model.C04Check Model.Terms Model.C14Pen Proofs.C14Dedup Proofs.C14Dist Proofs.C14Info.
 Import ListNotations.
 Open Scope list_scope.
 
-Lemma pen_simple_behav : forall x, pen_simple (behav_simple x) = pen_simple x.
-Proof. destruct x as [l | s | s c]; reflexivity. Qed.
-
-Lemma omap_pen_simple_behav : forall ms, omap pen_simple (map behav_simple ms) = omap pen_simple ms.
-Proof. induction ms as [| x r IH]; simpl; auto. now rewrite pen_simple_behav, IH. Qed.
-
-Lemma pen_term_behav : forall t, pen_term (behav t) = pen_term t.
+Lemma pen_simple_settings : forall dk nc x y, behav_simple x = behav_simple y ->
+  pen_simple (compile_simple dk nc x) = pen_simple (compile_simple dk nc y).
 Proof.
-  destruct t as [vb | x | ms b vb]; simpl; auto.
-  - now rewrite pen_simple_behav.
-  - now rewrite omap_pen_simple_behav.
+  intros dk nc x y H. destruct x as [l | s | s c], y as [l' | s' | s' c']; simpl in H; try discriminate.
+  - destruct l, l'. simpl in *. injection H as -> -> ->. reflexivity.
+  - destruct s, s'. simpl in *. injection H as -> -> -> -> -> -> -> -> -> _. reflexivity.
+  - destruct s, s'. simpl in *. injection H as -> -> -> -> -> -> -> -> _ ->. reflexivity.
 Qed.
 
-Lemma pen_term_settings : forall t u, behav t = behav u -> pen_term t = pen_term u.
-Proof. intros t u H. rewrite <- (pen_term_behav t), <- (pen_term_behav u). now rewrite H. Qed.
-
-Lemma penalty_now_settings : forall ts us, map behav ts = map behav us -> penalty_now ts = penalty_now us.
+Lemma omap_pen_simple_settings : forall dk nc ms ms', map behav_simple ms = map behav_simple ms' ->
+  omap pen_simple (map (compile_simple dk nc) ms) = omap pen_simple (map (compile_simple dk nc) ms').
 Proof.
-  intros ts us H. unfold penalty_now.
-  assert (E : omap pen_term ts = omap pen_term us).
+  induction ms as [| x r IH]; intros [| y s] H; simpl in *; try discriminate; auto.
+  injection H as H1 H2. now rewrite (pen_simple_settings dk nc x y H1), (IH s H2).
+Qed.
+
+Lemma pen_term_settings : forall dk nc t u, behav t = behav u -> pen_term (compile dk nc t) = pen_term (compile dk nc u).
+Proof.
+  intros dk nc t u H. destruct t as [vb | x | ms b vb], u as [vb' | y | ms' b' vb']; simpl in *; try discriminate; auto.
+  - injection H as H. now rewrite (pen_simple_settings dk nc x y H).
+  - injection H as H _. now rewrite (omap_pen_simple_settings dk nc ms ms' H).
+Qed.
+
+Lemma penalty_now_settings : forall dk nc ts us, map behav ts = map behav us ->
+  penalty_now (map (compile dk nc) ts) = penalty_now (map (compile dk nc) us).
+Proof.
+  intros dk nc ts us H. unfold penalty_now.
+  assert (E : omap pen_term (map (compile dk nc) ts) = omap pen_term (map (compile dk nc) us)).
   { revert us H. induction ts as [| t r IH]; intros [| u s] H; simpl in *; try discriminate; auto.
-    injection H as H1 H2. now rewrite (pen_term_settings t u H1), (IH s H2). }
+    injection H as H1 H2. now rewrite (pen_term_settings dk nc t u H1), (IH s H2). }
   now rewrite E.
 Qed.
 
-(* whatever was used or assigned before: once an assignment is accepted, the penalty is that of ANY term list that has the
-   resulting settings -- in particular of one constructed with those settings from the start *)
-Lemma penalty_after_assign : forall name v ts ts' fresh, tl_set name v ts = (Ok, ts') ->
-  map behav fresh = map behav ts' -> penalty_now fresh = penalty_now ts'.
+(* whatever was used or assigned before: once an assignment is accepted, the penalty (on any data) is that of ANY term list that
+   has the resulting settings -- in particular of one constructed with those settings from the start *)
+Lemma penalty_after_assign : forall dk nc name v ts ts' fresh, tl_set name v ts = (Ok, ts') ->
+  map behav fresh = map behav ts' -> penalty_now (map (compile dk nc) fresh) = penalty_now (map (compile dk nc) ts').
 Proof. intros. now apply penalty_now_settings. Qed.
 
-Lemma penalty_rebuilt : forall t, wf_term t -> roundtrip_guard t = true ->
-  exists t', build_from_info (info t) = Some t' /\ pen_term t' = pen_term t.
+Lemma penalty_rebuilt : forall dk nc t, wf_term t -> roundtrip_guard t = true ->
+  exists t', build_from_info (info t) = Some t' /\ pen_term (compile dk nc t') = pen_term (compile dk nc t).
 Proof.
-  intros t Hwf Hg. destruct (info_roundtrip_guarded t Hwf Hg) as [t' [E1 E2]]. exists t'. split; auto.
+  intros dk nc t Hwf Hg. destruct (info_roundtrip_guarded t Hwf Hg) as [t' [E1 E2]]. exists t'. split; auto.
   now apply pen_term_settings.
 Qed.
